@@ -3,7 +3,17 @@
 Lean: Edn.Properties.C08 (hasDuplicates decides "two elements are equal" for every element
 count; permutation invariance).  Correspondence: set/map literals of 2..1600 elements through
 the real reader and the model.  Oracle: the generator plants (or does not plant) an equal
-pair, so the expected verdict is known."""
+pair, so the expected verdict is known.
+
+Families: twins / near misses with integer fillers at every size class; distinct values with
+equal hashes between the members of a pair; namespaced maps; generated mixed values;
+two-spellings (one value written two ways - escape vs raw byte, sign, exponent, underscore,
+radix, \\uXXXX, list vs vector - among companions of its own type that sort between the two
+spellings by raw bytes, raw length, escape flag or hash; scalar-only, with one composite, and
+all wrapped; every size class; also as keys of namespaced maps); context (the literal under
+#_ directly / nested / chained, under tags, in and under metadata, as key and value, inside
+namespaced maps, 60 levels deep, under every reader option); discarded-elements (#_ forms
+between elements are no elements); map-values (only keys count)."""
 import json
 
 from .. import common as C
@@ -59,6 +69,460 @@ def build(kind, elems):
         flat.append(e)
         flat.append(str(i).encode())
     return b"{" + b" ".join(flat) + b"}"
+
+
+# ---------------------------------------------------------------------------------------------------------------------
+# One value, several spellings.  A strategy that orders the elements by something derived from the *text* of a literal
+# (raw bytes, raw length, an "has escapes" flag, a hash of the raw digits) and then tests neighbours only separates two
+# spellings of one value as soon as a third element sorts between them.  Each group below is (type, [spellings of ONE
+# value], [companions: pairwise unequal values of the same type, close to the value and to its spellings under every
+# such order]).
+# ---------------------------------------------------------------------------------------------------------------------
+_ESC = {9: b"\\t", 10: b"\\n", 13: b"\\r", 34: b"\\\"", 92: b"\\\\"}
+
+
+def s_raw(c):
+    """string literal with the mandatory escapes only (TAB / LF / CR stay raw bytes)"""
+    return b"\"" + b"".join(_ESC[x] if x in (34, 92) else bytes([x]) for x in c) + b"\""
+
+
+def s_esc(c):
+    return b"\"" + b"".join(_ESC.get(x, bytes([x])) for x in c) + b"\""
+
+
+def str_companions(c):
+    out, seen = [], {bytes(c), b""}
+
+    def add(x):
+        x = bytes(x)
+        if x not in seen:
+            seen.add(x)
+            out.append(x)
+    for p in range(len(c)):
+        if c[p] in (9, 10, 13):
+            for r in (0x20, 0x30, 0x41, 0x5b, 0x5d, 0x7e, 9, 10, 13):
+                add(c[:p] + bytes([r]) + c[p + 1:])
+    for p in (0, len(c) - 1):
+        for d in (-1, 1):
+            b = c[p] + d
+            if 0x20 <= b < 0x7f or b in (9, 10, 13):
+                add(c[:p] + bytes([b]) + c[p + 1:])
+    for x in (b"!", b"a", b"~", b"\t", b"\n"):
+        add(c + x)
+        add(x + c)
+    add(c[:-1])
+    add(c[1:])
+    add(c + c)
+    # one content, one spelling (escaped and raw alternate), so that companions stay pairwise unequal
+    return [(s_esc if i % 2 == 0 else s_raw)(x) for i, x in enumerate(out)]
+
+
+def int_spell(x, i, cfg):
+    if x >= 0 and i % 3 == 0:
+        return b"+%d" % x
+    if x >= 0 and i % 3 == 1 and cfg in ("clj", "both"):
+        return b"0x%x" % x
+    if x >= 1000 and i % 3 == 2 and cfg in ("exp", "both"):
+        d = b"%d" % x
+        return d[:1] + b"_" + d[1:]
+    return b"%d" % x
+
+
+def int_companions(v, cfg):
+    vals, seen = [], {v}
+    for x in [v + 1, v - 1, v + 2, -v, v * 10, v * 10 + 1, v * 11, v // 2] + list(range(0, 10)) + list(range(-9, 0)) + [v * 100, v + 16, v + 256]:
+        if x not in seen:
+            seen.add(x)
+            vals.append(x)
+    return [int_spell(x, i, cfg) for i, x in enumerate(vals)]
+
+
+def big_companions(v, hexa=False):
+    vals, seen = [], {v}
+    for x in [v + 1, v - 1, v + 2, v * 10, v * 10 + 1, v + 10 ** 5, v + 10 ** 19, v * 3, v * 100, -v, -v - 1, v * 7, v + 3, v + 4, v + 5, v + 6, v + 7]:
+        if x not in seen and abs(x) > 2 ** 64:
+            seen.add(x)
+            vals.append(x)
+    out = []
+    for i, x in enumerate(vals):
+        body = (b"0x%X" % abs(x)) if hexa else (b"%d" % abs(x))
+        sign = b"-" if x < 0 else (b"+" if i % 3 == 0 else b"")
+        out.append(sign + body + (b"N" if (i % 3 == 1 and not hexa) else b""))
+    return out
+
+
+def float_companions(v):
+    """v is a multiple of 1/4 (exact in binary and in two decimals)"""
+    vals, seen = [], {v}
+    for x in [v + 0.25, v - 0.25, v + 0.5, v - 0.5, v + 1, v - 1, v * 2 + 0.5, v * 10 + 0.25, v * 100 + 1, -v - 0.75, 0.25, 0.5, 0.75, 1.25, 2.75, 3.5, 7.25, 12.5]:
+        if x not in seen:
+            seen.add(x)
+            vals.append(x)
+    out = []
+    for i, x in enumerate(vals):
+        r = repr(float(x)).encode()
+        if i % 3 == 1:
+            r += b"0"
+        elif i % 3 == 2:
+            r = b"%de-2" % int(round(x * 100))
+        out.append(r)
+    return out
+
+
+def char_spell(cp, i):
+    if i % 2 == 0 and 0x21 <= cp <= 0x7e and chr(cp) not in "uo":
+        return b"\\" + bytes([cp])
+    return b"\\u%04X" % cp
+
+
+def char_companions(cp):
+    cps, seen = [], {cp}
+    for x in [cp + 1, cp - 1, cp + 2, cp - 2, cp + 3, 0x21, 0x7e, 0x30, 0x39, 0x5a, 0x78, 0x100, 0x3bb, 0x20ac, 0x62, 0x42, 0x7d, 0x5c, 0x22]:
+        if x not in seen and x > 0 and x not in (0x20, 9, 10, 13, 12, 8):
+            seen.add(x)
+            cps.append(x)
+    return [char_spell(x, i) for i, x in enumerate(cps)]
+
+
+def spelling_groups(cfg):
+    clj = cfg in ("clj", "both")
+    exp = cfg in ("exp", "both")
+    gs = []
+    # strings: escape vs raw byte, partially escaped, more than one SSE block, escapes on both sides
+    for c in (b"tab\there", b"a\nb", b"\r", b"0123456789abcdef\tq\n"):
+        gs.append(("str", [s_esc(c), s_raw(c)], str_companions(c)))
+    gs.append(("str", [b"\"x\\ty\\tz\"", b"\"x\ty\\tz\"", b"\"x\ty\tz\""], str_companions(b"x\ty\tz")))
+    gs.append(("str", [b"\"q\\\"\\t\"", b"\"q\\\"\t\""], str_companions(b"q\"\t")))
+    if clj:
+        gs.append(("str", [b"\"A\"", b"\"\\u0041\"", b"\"\\101\""], str_companions(b"A")))
+        gs.append(("str", [b"\"k\\t\"", b"\"k\\u0009\"", b"\"k\\11\"", b"\"k\t\""], str_companions(b"k\t")))
+        gs.append(("str", [b"\"\xc3\xa9\"", b"\"\\u00e9\"", b"\"\\u00E9\""], str_companions(b"\xc3\xa9")))
+    if exp:
+        gs.append(("str", [b"\"\"\"\nab\"\"\"", b"\"ab\""], str_companions(b"ab")))
+        gs.append(("str", [b"\"\"\"\n  a\n  b\n  \"\"\"", b"\"a\\nb\\n\"", b"\"a\nb\n\""], str_companions(b"a\nb\n")))
+    # integers
+    gs.append(("int", [b"7", b"+7"], int_companions(7, cfg)))
+    gs.append(("int", [b"0", b"-0", b"+0"], [b"1", b"-1", b"+2", b"10", b"-10", b"+100", b"3", b"-3", b"4", b"5", b"+6", b"8", b"9", b"-2", b"-4"]))
+    gs.append(("int", [b"+4096", b"4096"], int_companions(4096, cfg)))
+    if clj:
+        gs.append(("int", [b"0x10", b"16", b"020", b"2r10000", b"16r10", b"+16"], int_companions(16, cfg)))
+    if exp:
+        gs.append(("int", [b"1_000", b"1000", b"+1_0_0_0"], int_companions(1000, cfg)))
+    # big integers
+    v = 12345678901234567890
+    gs.append(("bigint", [b"%d" % v, b"+%d" % v, b"%dN" % v], big_companions(v)))
+    gs.append(("bigint", [b"5N", b"+5N"], [b"4N", b"+6N", b"-5N", b"50N", b"+55N", b"7N", b"8N", b"+9N", b"15N", b"25N", b"+35N", b"45N", b"65N", b"+75N", b"85N"]))
+    if clj:
+        h = 0xFFFFFFFFFFFFFFFFFFFF
+        gs.append(("bigint", [b"0x%X" % h, b"+0x%X" % h], big_companions(h, hexa=True)))
+    if exp:
+        gs.append(("bigint", [b"1_000N", b"1000N"], [b"999N", b"+1001N", b"1_011N", b"10_00_0N", b"100N", b"+1_0N", b"1002N", b"1003N", b"+1004N", b"1_005N", b"1006N", b"+1007N", b"1_008N", b"1009N", b"+1010N"]))
+        w = 10 ** 21
+        gs.append(("bigint", [b"1_000_000_000_000_000_000_000", b"%d" % w, b"+1000000000000_000000000"], big_companions(w)))
+    # floats
+    gs.append(("float", [b"1.0", b"1.00", b"1e0", b"10e-1", b"+1.0"], float_companions(1.0)))
+    gs.append(("float", [b"1e2", b"100.0", b"1E2", b"1e+2"], float_companions(100.0)))
+    gs.append(("float", [b"0.0", b"-0.0", b"0e0"], float_companions(0.0)))
+    gs.append(("float", [b"1.5", b"1.50", b"15e-1"], float_companions(1.5)))
+    gs.append(("float", [b"-2.5", b"-25e-1", b"-2.50"], float_companions(-2.5)))
+    if exp:
+        gs.append(("float", [b"1_0.5", b"10.5", b"1_0.5_0"], float_companions(10.5)))
+    # characters
+    for names, cp in (([b"\\a", b"\\u0061"], 0x61), ([b"\\newline", b"\\u000A", b"\\u000a"], 10), ([b"\\space", b"\\u0020"], 0x20),
+                      ([b"\\tab", b"\\u0009"], 9), ([b"\\return", b"\\u000D"], 13)):
+        gs.append(("char", names, char_companions(cp)))
+    if clj:
+        gs.append(("char", [b"\\A", b"\\o101", b"\\u0041"], char_companions(0x41)))
+    # big decimals
+    gs.append(("bigdec", [b"1.5M", b"+1.5M"], [b"1.4M", b"+1.6M", b"1.25M", b"15.5M", b"0.5M", b"+2.5M", b"-1.5M", b"11.5M", b"+1.75M", b"3.5M", b"4.5M", b"+5.5M", b"6.5M", b"7.5M", b"+8.5M"]))
+    if exp:
+        gs.append(("bigdec", [b"1_0.5M", b"10.5M"], [b"10.4M", b"+10.6M", b"1_0.25M", b"105.5M", b"0.5M", b"+1_1.5M", b"-10.5M", b"9.5M", b"+12.5M", b"13.5M", b"14.5M", b"+15.5M", b"16.5M", b"17.5M", b"+18.5M"]))
+    if clj:
+        rc = [b"1/3", b"4/6", b"3/4", b"2/5", b"6/10", b"1/4", b"5/8", b"4/7", b"3/7", b"+5/9", b"4/9", b"5/11", b"6/11", b"-1/3", b"-3/4", b"7/12"]
+        gs.append(("ratio", [b"1/2", b"2/4", b"+1/2", b"3/6"], rc))
+        gs.append(("ratio", [b"-1/2", b"-2/4"], rc[:13] + [b"-1/5", b"-2/7"]))
+    # composites whose own elements are spelled / ordered differently
+    cc = [b"[1 3]", b"(2 1)", b"[1]", b"(1 2 3)", b"[[1 2]]", b"{:a 1}", b"{:a 1 :b 3}", b"{:a 2 :b 1}", b"#{1 2}", b"#{1 2 4}", b"#{[1 2]}", b"#t [2]", b"#u [1]", b"#t 1",
+          b"[\"a\\tc\"]", b"(1.0 \"a\")", b"{1 2}", b"[2 2]"]
+    gs.append(("composite", [b"[1 2]", b"(1 2)"], cc))
+    gs.append(("composite", [b"{:a 1 :b 2}", b"{:b 2, :a 1}"], cc))
+    gs.append(("composite", [b"#{1 2 3}", b"#{3 1 2}", b"#{2 3 1}"], cc))
+    gs.append(("composite", [b"#t [1]", b"#t (1)"], cc))
+    gs.append(("composite", [b"[1.0 \"a\\tb\"]", b"(1e0 \"a\tb\")", b"[1.00 \"a\tb\"]"], cc))
+    gs.append(("composite", [b"[]", b"()"], cc))
+    gs.append(("composite", [b"[[[1]]]", b"[([1])]", b"(([1]))"], cc))
+    gs.append(("composite", [b"{[1] #{2}}", b"{(1) #{2}}"], cc))
+    if clj:
+        gs.append(("composite", [b"^:m [1 2]", b"[1 2]", b"^{:k 1} (1 2)"], cc))
+        gs.append(("composite", [b"#:n{:a 1}", b"{:n/a 1}", b"#:n{:n/a 1}"], cc))
+    return gs
+
+
+def typed_filler(ty, i):
+    k = i // 2
+    if i % 2 == 1:   # every second filler is a scalar of another type
+        return [b":kw%d" % k, b"sy%d" % k, b"%d" % (3000000 + k)][k % 3]
+    if ty == "str":
+        return (b"\"s%04d\\t\"" % k) if k % 4 == 0 else (b"\"s%04d\"" % k)
+    if ty == "int":
+        return b"%d" % (7000000 + k)
+    if ty == "bigint":
+        return b"%d" % (7 * 10 ** 30 + k)
+    if ty == "float":
+        return b"%d.5" % (1000 + k)
+    if ty == "char":
+        return b"\\u%04X" % (0x400 + k)
+    if ty == "bigdec":
+        return b"%d.5M" % (1000 + k)
+    if ty == "ratio":
+        return b"%d/1000003" % (2 + k)
+    return b"[%d]" % (7000 + k)
+
+
+WRAPS = [b"[%s]", b"#t %s", b"{:k %s}", b"#{%s}", b"{%s 1}", b"(%s)", b"[0 %s]", b"[[%s]]", b"#a #b %s"]
+ODD_ONES = [b"[:odd :one]", b"#odd 1", b"{}", b"#{}", b"(:odd)", b"9.75M", b"[[]]", b"{[] ()}"]
+
+
+def spelling_pairs(group):
+    ty, sp, comp = group
+    ps = [(sp[i], sp[i + 1]) for i in range(len(sp) - 1)]
+    if len(sp) > 2:
+        ps.append((sp[-1], sp[0]))
+    return ps
+
+
+def spelling_docs(rng, cfg, tier, add):
+    """add(doc, what, kind, n, a, b, family)"""
+    groups = spelling_groups(cfg)
+    small = [3, 16, 17, 18, 40] if tier == "quick" else [2, 3, 8, 16, 17, 18, 19, 33, 40, 64]
+    large = [1000, 1001, 1002] if tier == "quick" else [100, 999, 1000, 1001, 1002, 1600]
+    seen_type = set()
+    pi = 0
+    for g in groups:
+        ty, sp, comp = g
+        first_of_type = ty not in seen_type
+        seen_type.add(ty)
+        for gi, (a, b) in enumerate(spelling_pairs(g)):
+            pi += 1
+            if rng.random() < 0.5:
+                a, b = b, a
+            sizes = list(small)
+            if first_of_type and gi == 0:
+                sizes += large
+            else:
+                sizes += [1001] if tier == "quick" else [999, 1000, 1001, 1002]
+            for n in sizes:
+                others = list(comp)
+                if len(others) > n - 2:
+                    # keep the closest companions (front of the list) and a few random others
+                    head = others[:max(0, (n - 2) // 2)]
+                    rest = others[len(head):]
+                    others = head + rng.sample(rest, n - 2 - len(head))
+                k = 0
+                while len(others) < n - 2:
+                    others.append(typed_filler(ty, k))
+                    k += 1
+                for cls in ("same", "mixed", "wrapped"):
+                    oth = list(others)
+                    aa, bb = a, b
+                    if cls == "mixed" and oth:
+                        oth[(pi + n) % len(oth)] = ODD_ONES[(pi + n) % len(ODD_ONES)]
+                    if cls == "wrapped":
+                        w = WRAPS[(pi + n) % len(WRAPS)]
+                        oth = [w % x for x in oth]
+                        aa, bb = w % a, w % b
+                    for kind in ("set", "map"):
+                        layouts = ("apart", "shuffled") if (n < 100 and (kind == "set" or tier == "thorough")) else ("shuffled",)
+                        for lay in layouts:
+                            el = [aa] + oth + [bb]
+                            if lay == "shuffled":
+                                rng.shuffle(el)
+                            add(build(kind, el), "dup", kind, n, aa, bb, "two-spellings/%s/%s" % (ty, cls))
+                        if kind == "map" and cfg in ("clj", "both") and (n in (3, 17, 40) or (n > 1000 and cls == "same")):
+                            # the same keys in a namespaced map: qualification touches the keyword fillers only
+                            el = [aa] + oth + [bb]
+                            rng.shuffle(el)
+                            add(b"#:ns" + build(kind, el), "dup", kind, n, aa, bb, "two-spellings/%s/%s" % (ty, cls))
+                        if n < 100 or (cls == "same" and (kind == "set" or tier == "thorough")):
+                            # the same companions around ONE of the two spellings: pairwise unequal, never rejected
+                            el = [aa if (pi + n) % 2 else bb] + oth
+                            rng.shuffle(el)
+                            add(build(kind, el), "nodup", kind, n - 1, aa, b"(companions only)", "two-spellings/%s/%s" % (ty, cls))
+
+
+# ---------------------------------------------------------------------------------------------------------------------
+# The literal is not the whole document: a set / map literal with an equal pair is malformed wherever it is written -
+# under a discard marker (directly, nested, chained), under a tag, as metadata or annotated by metadata, as a key or a
+# value, inside a namespaced map, under every reader option.  Its well-formed counterpart is accepted there.
+# ---------------------------------------------------------------------------------------------------------------------
+def context_templates(cfg):
+    """(name, template with %s, reader options it is read under, usable for the well-formed counterpart)"""
+    clj = cfg in ("clj", "both")
+    opts_all = [0, 1, 2, 4, 8, 16]
+    t = [
+        ("discard/top", b"#_%s :kept", opts_all, True),
+        ("discard/top-nospace", b"#_ %s,:kept", [0], True),
+        ("discard/in-vector", b"[#_%s :kept]", opts_all, True),
+        ("discard/in-vector-last", b"[:kept #_%s]", [0, 8], True),
+        ("discard/in-list", b"(1 #_ %s)", [0], True),
+        ("discard/in-set", b"#{1 #_%s 2}", [0, 16], True),
+        ("discard/in-map-value-position", b"{:k #_%s :v}", [0, 1], True),
+        ("discard/in-map-key-position", b"{#_%s :k :v}", [0], True),
+        ("discard/nested-vector", b"[#_[x %s] :kept]", opts_all, True),
+        ("discard/nested-map-value", b"[#_{:k %s} :kept]", [0, 8], True),
+        ("discard/nested-map-key", b"[#_{%s 1} :kept]", [0], True),
+        ("discard/nested-set", b"[#_#{%s} y]", [0], True),
+        ("discard/nested-deep", b"[#_(1 (2 [3 {4 %s}])) y]", [0, 2], True),
+        ("discard/chain-second", b"[#_ #_ :x %s :kept]", opts_all, True),
+        ("discard/chain-first", b"[#_ #_ %s :x :kept]", [0, 8], True),
+        ("discard/chain-three", b"[#_ #_ #_ 1 2 %s :kept]", [0], True),
+        ("discard/chain-nested", b"[#_ #_ [%s] :x :kept]", [0], True),
+        ("discard/chain-top", b"#_ #_ %s 1 2", [0, 1], True),
+        ("discard/inside-discard", b"[#_ [#_ %s 1] 2]", [0, 4], True),
+        ("discard/comment-between", b"[#_ ;c\n %s :kept]", [0], True),
+        ("discard/tagged", b"[#_ #t %s 1]", [0, 8], True),
+        ("discard/tagged-nested", b"#_ #t [%s] 1", [0], True),
+        ("discard/registered-tag", b"[#_ #id %s 1]", [8], True),
+        ("discard/failing-tag", b"[#_ #fail %s 1]", [8], False),
+        ("after-a-discard", b"[#_#{1 2} %s]", [0, 8], True),
+        ("after-a-discard/map", b"[#_{:a 1} #_ x %s]", [0], True),
+        ("tag", b"#t %s", [0, 2, 16], True),
+        ("tag/nested", b"#t [%s]", [0], True),
+        ("tag/two", b"#a #b %s", [0], True),
+        ("tag/registered", b"#id %s", [8], True),
+        ("tag/registered-ext", b"[#ext %s]", [8], True),
+        ("tag/registered-failing", b"#fail %s", [8], False),
+        ("map-value", b"{:k %s}", opts_all, True),
+        ("map-value/middle", b"{:a 1 :k %s :b 2}", [0], True),
+        ("map-key", b"{%s :v}", [0, 8], True),
+        ("in-vector", b"[%s]", [0, 1], True),
+        ("in-list", b"(1 %s)", [0], True),
+        ("in-set", b"#{%s 1}", [0, 4], True),
+        ("in-set/deep", b"#{#{#{%s}}}", [0], True),
+        ("in-vector/deep", b"[[[[%s]]]]", [0], True),
+        ("in-vector/depth-60", b"[" * 60 + b"%s" + b"]" * 60, [0], True),
+        ("in-mixed/depth-40", b"[{:k (#{#t " * 10 + b"%s" + b"})}]" * 10, [0], True),
+        ("discard/depth-40", b"[{:k (#{#_ #t " * 10 + b"[%s]" + b" 1})}]" * 10, [0], True),
+        ("map-value/deep", b"{:a {:b {:c %s}}}", [0, 8], True),
+    ]
+    if clj:
+        t += [
+            ("metadata/target", b"^:m %s", [0, 8], True),
+            ("metadata/target-map-meta", b"^{:k 1} %s", [0], True),
+            ("metadata/target-in-vector", b"[^:m %s]", [0, 1], True),
+            ("metadata/in-value", b"^{:k %s} [1]", [0, 8], True),
+            ("metadata/in-key", b"^{%s 1} [1]", [0], True),
+            ("metadata/discarded-target", b"#_ ^:m %s 1", [0], True),
+            ("metadata/discarded-in-value", b"[#_ ^{:k %s} x 2]", [0, 8], True),
+            ("metadata/two", b"^:a ^{:b %s} [1]", [0], True),
+            ("namespaced-map/value", b"#:n{:a %s}", [0, 8], True),
+            ("namespaced-map/key", b"#:n{%s 1}", [0], True),
+            ("namespaced-map/discarded-value", b"[#_#:n{:a %s} 1]", [0, 8], True),
+            ("namespaced-map/discarded-inside", b"#:n{:a 1 #_ %s :b 2}", [0], True),
+        ]
+    return t
+
+
+def context_payloads(rng, cfg, tier):
+    """(literal, kind, n, is duplicate, size class)"""
+    clj = cfg in ("clj", "both")
+    ps = [
+        (b"#{1 1}", "set", 2, True, 0), (b"#{[1] (1)}", "set", 2, True, 0), (b"#{0.0 -0.0}", "set", 2, True, 0), (b"#{\"a\\tb\" \"a\tb\"}", "set", 2, True, 0),
+        (b"#{##NaN ##NaN}", "set", 2, True, 0), (b"#{:a b :a}", "set", 3, True, 0), (b"#{#t 1 #t 1}", "set", 2, True, 0),
+        (b"{:a 1 :a 2}", "map", 2, True, 0), (b"{[1] 1 (1) 2}", "map", 2, True, 0), (b"{1.0 1 x 2 1e0 3}", "map", 3, True, 0), (b"{#{1 2} 1 #{2 1} 1}", "map", 2, True, 0),
+        (b"#{1 2}", "set", 2, False, 0), (b"#{[1] (2)}", "set", 2, False, 0), (b"#{0.0 0}", "set", 2, False, 0), (b"#{:a a \"a\" \\a}", "set", 4, False, 0),
+        (b"{:a 1 :b 1}", "map", 2, False, 0), (b"{[1] 1 #{1} 1}", "map", 2, False, 0),
+    ]
+    if clj:
+        ps += [(b"#:n{:a 1 :n/a 2}", "map", 2, True, 0), (b"#:n{a 1 n/a 2}", "map", 2, True, 0), (b"#{[1] ^:m [1]}", "set", 2, True, 0),
+               (b"#{1/2 2/4}", "set", 2, True, 0), (b"#:n{:a 1 :m/a 2 :_/a 3 a 4}", "map", 4, False, 0), (b"#{[1] ^:m [2]}", "set", 2, False, 0)]
+    for n, cls in ((17, 1), (21, 1), (1001, 2)) if tier == "quick" else ((16, 0), (17, 1), (21, 1), (1000, 1), (1001, 2), (1200, 2)):
+        ints = [b"%d" % i for i in range(n - 1)]
+        comps = [[b"[%d]", b"(%d)", b"#{%d}", b"{%d 0}", b"#t %d", b"\"%d\"", b":k%d"][i % 7] % i for i in range(n - 1)]
+        for base, twin in ((ints, (b"7", b"+7")), (comps, (b"[7]", b"(7)"))):
+            if n > 1000 and base is comps and tier == "quick":
+                continue
+            for kind in ("set", "map"):
+                el = list(base)
+                el[7] = twin[0]
+                d = el + [twin[1]]
+                u = el + [b"-1"]
+                rng.shuffle(d)
+                rng.shuffle(u)
+                ps.append((build(kind, d), kind, n, True, cls))
+                ps.append((build(kind, u), kind, n, False, cls))
+    return ps
+
+
+def has_tag(x):
+    return b"#" in x.replace(b"#_", b"").replace(b"#{", b"").replace(b"#:", b"").replace(b"##", b"")
+
+
+def context_docs(rng, cfg, tier, add):
+    temps = context_templates(cfg)
+    pays = context_payloads(rng, cfg, tier)
+    for (name, t, opts, wellformed_ok) in temps:
+        for (p, kind, n, dup, cls) in pays:
+            if not dup and not wellformed_ok:
+                continue
+            os_ = list(opts)
+            if cls == 2:
+                # literals above the last threshold are long: directly discarded, nested, chained, tagged, as a value - under the default options
+                if name not in ("discard/in-vector", "discard/nested-vector", "discard/chain-second", "tag", "map-value", "metadata/in-value", "namespaced-map/value"):
+                    continue
+                os_ = os_[:1]
+            elif cls == 1 or not dup:
+                os_ = os_[:2]
+            for o in os_:
+                if (o & 4) and (has_tag(t) or has_tag(p)):
+                    continue    # an unknown tag is an error by option, whatever it is applied to
+                add(t.replace(b"%s", p), "dup" if dup else "nodup", kind, n, p[:40], name.encode(), "context/" + name.split("/")[0], o)
+
+
+def map_value_docs(rng, cfg, tier, add):
+    """Only keys count: equal values, values equal to keys and values holding duplicate-free copies of the keys make no duplicate."""
+    for n in (2, 3, 16, 17, 18, 100, 1001):
+        keys = [[b"%d", b"[%d]", b":k%d", b"\"%d\"", b"(%d 0)", b"%d.5"][i % 6] % i for i in range(n)]
+        for name, vals in (("all values equal", [b"\"v\\t\""] * n), ("values are the keys, rotated", keys[1:] + keys[:1]), ("every value equals its key", keys),
+                           ("values in two spellings", [(b"1.0" if i % 2 else b"1e0") for i in range(n)])):
+            flat = []
+            for k_, v_ in zip(keys, vals):
+                flat += [k_, v_]
+            add(b"{" + b" ".join(flat) + b"}", "nodup", "map", n, name.encode(), b"", "map-values", 0)
+            if cfg in ("clj", "both") and n <= 100:
+                add(b"#:q{" + b" ".join(flat) + b"}", "nodup", "map", n, name.encode(), b"", "map-values", 0)
+
+
+def discarded_element_docs(rng, cfg, tier, add):
+    """A discarded form between the elements is no element: repeating an element under #_ makes no duplicate, and an
+    equal pair stays one with discarded forms between and around its members."""
+    for n in (2, 3, 16, 17, 18, 100, 1001):
+        base = [[b"%d", b"[%d]", b":k%d", b"\"%d\"", b"(%d 0)"][i % 5] % i for i in range(n)]
+        for kind in ("set", "map"):
+            def lit(items):
+                if kind == "set":
+                    return b"#{" + b" ".join(items) + b"}"
+                out = []
+                for i, e in enumerate(items):
+                    out.append(e if e.startswith(b"#_") else e + b" %d" % i)
+                return b"{" + b" ".join(out) + b"}"
+            # every element once more, discarded
+            every = []
+            for e in base:
+                every += [e, b"#_" + e]
+            add(lit(every), "nodup", kind, n, b"#_ copy of every element", b"", "discarded-elements", 0)
+            one = list(base)
+            one.insert(rng.randrange(1, n + 1), b"#_ " + base[0])
+            one.append(b"#_ #_ " + base[-1] + b" " + base[0])
+            add(lit(one), "nodup", kind, n, b"#_ copies of the first and last element", b"", "discarded-elements", 0)
+            for (a, b) in ((b"1.0", b"1e0"), (b"[x]", b"(x)")):
+                d = list(base)
+                d.insert(rng.randrange(0, n + 1), a)
+                j = rng.randrange(0, len(d) + 1)
+                d.insert(j, b)
+                d.insert(j, b"#_ " + b)
+                d.insert(rng.randrange(0, len(d) + 1), b"#_ #_ q " + a)
+                add(lit(d), "dup", kind, n + 2, a, b, "discarded-elements", 0)
 
 
 def run(tier):
@@ -156,8 +620,44 @@ def run(tier):
             docs.append(build("set", dup))
             expect.append(("dup", "set", n + 1, b"", b""))
 
-        lines = K.read_lines(docs)
-        impl, model, diffs, crashes, mcr = K.correspond(cfg, lines, project=lambda s: s.split(" ")[0:2] if s else s)
+        # one value in two spellings among companions that sort between them; literals that are not the whole document
+        opts = {}
+        oracle_only = set()    # of the new families' literals around and above the last threshold one in 16 (thorough: 4) is also read by the model (slow there), all by the library
+        nbig = [0]
+
+        def add(doc, what, kind, n, a, b, fam, opt=0):
+            if opt:
+                opts[len(docs)] = opt
+            if n >= 999:
+                nbig[0] += 1
+                if nbig[0] % (16 if tier == "quick" else 4) != 1:
+                    oracle_only.add(len(docs))
+                    rep.count("oracle-only/" + cfg)
+            docs.append(doc)
+            expect.append((what, kind, n, a, b, fam))
+            rep.count("%s/%s/%s" % (fam.split("/")[0], cfg, what))
+            if fam.startswith("two-spellings"):
+                rep.count("two-spellings/by-type/" + fam.split("/")[1])
+                rep.count("two-spellings/by-companions/" + fam.split("/")[2])
+                rep.count("two-spellings/by-size/" + ("<=16" if n <= 16 else ("17..1000" if n <= 1000 else ">1000")))
+            elif fam.startswith("context"):
+                rep.count("context/by-place/" + b.decode())
+                rep.count("context/by-option/%d" % opt)
+
+        spelling_docs(rng, cfg, tier, add)
+        context_docs(rng, cfg, tier, add)
+        discarded_element_docs(rng, cfg, tier, add)
+        map_value_docs(rng, cfg, tier, add)
+
+        lines = ["R %d %s" % (opts.get(i, 0), C.hexs(d)) for i, d in enumerate(docs)]
+        impl, crashes = K.run_impl(cfg, lines)
+        midx = [i for i in range(len(lines)) if i not in oracle_only]
+        mouts, mcr = K.run_model(cfg, [lines[i] for i in midx])
+        model = [None] * len(lines)
+        for i, o in zip(midx, mouts):
+            model[i] = o
+        project = lambda s: s.split(" ")[0:2] if s else s
+        diffs = [i for i in midx if impl[i] is not None and project(impl[i]) != project(model[i])]
         rep.count("literals/" + cfg, len(docs))
         for idx, rc, err in crashes:
             found = True
@@ -167,18 +667,21 @@ def run(tier):
         for i, (out, ex) in enumerate(zip(impl, expect)):
             if out is None:
                 continue
-            what, kind, n, a, b = ex
+            what, kind, n, a, b = ex[:5]
+            fam = ex[5] if len(ex) > 5 else None
+            suffix = ("/" + fam.split("/")[0]) if fam else ""
+            where = (" (%s)" % fam) if fam else ""
             code = "DUPLICATE_ELEMENT" if kind == "set" else "DUPLICATE_KEY"
             is_dup = out.startswith("err " + code)
             if what == "dup" and not is_dup:
                 found = True
-                rep.finding("missed/%s/%d" % (kind, 0 if n <= 16 else (1 if n <= 1000 else 2)),
-                            "a %s literal of %d elements containing the equal pair %r / %r was not rejected as duplicate: %s" % (kind, n, a, b, out[:80]),
-                            {"kind": "read", "config": cfg, "input_hex": C.hexs(docs[i]), "expected": "err " + code, "observed": out[:300]})
+                rep.finding("missed/%s/%d%s" % (kind, 0 if n <= 16 else (1 if n <= 1000 else 2), suffix),
+                            "a %s literal of %d elements containing the equal pair %r / %r was not rejected as duplicate%s: %s" % (kind, n, a, b, where, out[:80]),
+                            {"kind": "read", "config": cfg, "opt": opts.get(i, 0), "input_hex": C.hexs(docs[i]), "expected": "err " + code, "observed": out[:300]})
             if what == "nodup" and not out.startswith("ok "):
                 found = True
-                rep.finding("spurious/%s" % kind, "a %s literal of %d pairwise unequal elements (%r / %r) was rejected: %s" % (kind, n, a, b, out[:80]),
-                            {"kind": "read", "config": cfg, "input_hex": C.hexs(docs[i]), "expected": "ok", "observed": out[:300]})
+                rep.finding("spurious/%s%s" % (kind, suffix), "a %s literal of %d pairwise unequal elements (%r / %r) was rejected%s: %s" % (kind, n, a, b, where, out[:80]),
+                            {"kind": "read", "config": cfg, "opt": opts.get(i, 0), "input_hex": C.hexs(docs[i]), "expected": "ok", "observed": out[:300]})
         rep.note_cases(len(docs), set(C.sha(d)[:16] for d in docs), sample={"doc": docs[5][:200].decode("latin-1"), "result": (impl[5] or "")[:120]})
     U.finish_proof(rep, lean, found)
 
@@ -188,6 +691,6 @@ def replay(path):
     print(json.dumps(r, indent=1)[:2000])
     exe = C.harness("unity", r["config"], "san")
     doc = bytes.fromhex(r["input_hex"])
-    out = C.run_lines(exe, K.read_lines([doc]))
+    out = C.run_lines(exe, K.read_lines([doc], r.get("opt", 0)))
     print("now:", (out.outputs or [""])[0][:300], "| expected:", r.get("expected"))
     return 0 if out.outputs and out.outputs[0].startswith(r.get("expected", "")) else 1
